@@ -27,6 +27,9 @@ def vf_jobs(tier):
         J.append(Job('chain-table-%d'%kl,'vf/chain_table.c',defs=['-DKL=%d'%kl,'-DFETCHES=%d'%(10 if kl==2 else 16)],cuts={'vorbisfile.c':['_seek_helper','_get_next_page','_get_prev_page_serial','_fetch_headers','_initial_pcmoffset','ov_raw_seek']},
             unwind=(12 if kl==2 else 18),object_bits=12,witnesses=['chain opened','serial number with the top bit set'],models=ENV+['abstract chained file (M-frame(c))'],tags=['C09','C03','C13'],checks=[],
             functions=['_open_seekable2','_bisect_forward_serialno','ov_pcm_total'],bounds='%d links of 200..40000 bytes, <=%d page fetches, non-multiplexed chain'%(kl,10 if kl==2 else 16),weight=4,flags=['--depth','100000'] if False else []))
+    J.append(Job('raw-seek','vf/raw_seek.c',defs=['-DNPK=%d'%(3 if q else 4)],cuts={'vorbisfile.c':['_seek_helper','_get_next_page']},unwind=(3 if q else 4)*2+6,object_bits=12,
+        witnesses=['not seekable','out of range','seek failed','last page, not first','first page is also the last','ordinary page'],models=ENV+['abstract single-page source, two ghost stream queues'],tags=['C07','C10','C03','C12'],
+        functions=['ov_raw_seek','_decode_clear','ov_pcm_total'],bounds='2 links, the page found holds <=%d packets, no further page'%(3 if q else 4),weight=3))
     for nm,d in (('F-prevserial',[]),('F-prevpage',['-DPLAIN'])):
         J.append(Job(nm,'vf/f_prevpage.c',defs=d,cuts={'vorbisfile.c':['_seek_helper','_get_next_page']},unwind=10,unwindset=[('env_fill_page',None,28)],object_bits=12,
             witnesses=['page found','error under persisting end of data'],models=ENV+['recurrence (lasso) check in the _seek_helper contract'],tags=['C03','C12'],
